@@ -373,8 +373,10 @@ func (p Params) withDefaults(rng *rand.Rand) Params {
 }
 
 type builder struct {
-	rng *rand.Rand
-	t   *Topo
+	pool  []addr.AS
+	byISD map[addr.IA]bool
+	rng   *rand.Rand
+	t     *Topo
 }
 
 func (b *builder) pct(p int) bool { return p > 0 && b.rng.IntN(100) < p }
@@ -473,6 +475,28 @@ func (b *builder) assignBRs() {
 
 // asNumber draws AS numbers of both textual families (BGP-style decimal and
 // ff00:0:xxx hexadecimal).
+// asNumberIn draws an AS number for ISD isd: AS numbers are unique within an
+// ISD only, so one third of the draws reuse a number that another ISD of the
+// topology already has (1-ff00:0:a and 2-ff00:0:a are different ASes).
+func (b *builder) asNumberIn(isd addr.ISD, used map[addr.AS]bool) addr.AS {
+	if b.byISD == nil {
+		b.byISD = map[addr.IA]bool{}
+	}
+	if len(b.pool) > 0 && b.rng.IntN(3) == 0 {
+		for try := 0; try < 8; try++ {
+			as := b.pool[b.rng.IntN(len(b.pool))]
+			if !b.byISD[addr.MustIAFrom(isd, as)] {
+				b.byISD[addr.MustIAFrom(isd, as)] = true
+				return as
+			}
+		}
+	}
+	as := b.asNumber(used)
+	b.byISD[addr.MustIAFrom(isd, as)] = true
+	b.pool = append(b.pool, as)
+	return as
+}
+
 func (b *builder) asNumber(used map[addr.AS]bool) addr.AS {
 	for {
 		var as addr.AS
@@ -517,7 +541,7 @@ func Generate(rng *rand.Rand, params Params) *Topo {
 		room := budget - (len(isds) - k - 1) - 1
 		n = max(1, min(n, room))
 		for j := 0; j < n; j++ {
-			a := b.addAS(addr.MustIAFrom(isd, b.asNumber(usedAS)), true, 0)
+			a := b.addAS(addr.MustIAFrom(isd, b.asNumberIn(isd, usedAS)), true, 0)
 			cores = append(cores, a)
 			coresOf[isd] = append(coresOf[isd], a)
 			budget--
@@ -570,7 +594,7 @@ func Generate(rng *rand.Rand, params Params) *Topo {
 					prov = prov2
 				}
 			}
-			a := b.addAS(addr.MustIAFrom(isd, b.asNumber(usedAS)), false, prov.Depth+1)
+			a := b.addAS(addr.MustIAFrom(isd, b.asNumberIn(isd, usedAS)), false, prov.Depth+1)
 			b.link(prov, a, topology.Child)
 			if b.pct(p.MultiHomePct) {
 				var c2 []*AS
